@@ -10,6 +10,7 @@ import Driver.Swc
 import Driver.CableDual
 import Driver.SolveJaxley
 import Driver.InitStates
+import Driver.Sim
 open Driver
 
 def handle (line : String) : String :=
@@ -33,6 +34,7 @@ def handle (line : String) : String :=
   | "swc" :: rest => handleSwc rest
   | "jsolve" :: rest => handleJSolve rest
   | "initst" :: rest => handleInitSt rest
+  | "sim" :: rest => handleSim rest
   | "ping" :: _ => "pong"
   | _ => "bad-op"
 
